@@ -155,6 +155,22 @@ def check_property(pid, tier, seed):
             if first:
                 samples.append({"obligation": first["name"], "engine": first["engine"], "bound": first["bound"],
                                 "harness_source": first["files"], "status": first["status"]})
+        # ------------------------------------------------------------------ native bounded stand-ins
+        for nb in (spec.get("native", []) if os.environ.get("VERIF_ENGINES", "") != "verus" else []):
+            t1 = time.time()
+            res = kani_runner.native_bounded([os.path.join(VERIF, f) for f in nb.get("files", [])], list(nb["harnesses"]),
+                                             inject=nb.get("inject", ()))
+            cmds.append("cargo build --offline --example verif_replay (RUSTFLAGS=--cfg verif_replay); <scratch>/verif_replay <harness>")
+            for n, meta_n in nb["harnesses"].items():
+                ok, outp = res.get(n, (None, "not run"))
+                status = "discharged" if ok else ("refuted" if ok is False else "error")
+                obligations.append(dict(name=f"{pid}/native_bounded/{meta_n.get('anchor', n)}/{n}", engine="native_bounded",
+                                        status=status, detail=outp[-1500:] if status != "discharged" else "", time_s=None,
+                                        bound=meta_n["bound"], kind="harness", harness=n, files=nb.get("files", []),
+                                        failed_checks=[(outp[-300:], "")], inject=nb.get("inject", ()), native=True))
+                by_backend["native_bounded"] = by_backend.get("native_bounded", 0) + 1
+                functions_under_contract.append(meta_n.get("anchor", n))
+            solver_time += 0
     finally:
         shutil.rmtree(scratch, ignore_errors=True)
 
@@ -274,7 +290,14 @@ def write_replay(pid, o):
     rec = {"property": pid, "obligation": o["name"], "engine": o["engine"], "verifier_output": o["detail"],
            "bound": o.get("bound")}
     suffix = " no-failing-input-found"
-    if o["engine"].startswith("kani"):
+    if o["engine"] == "native_bounded":
+        rec["harness"] = o["harness"]
+        rec["harness_files"] = o["files"]
+        rec["inject"] = list(o.get("inject", ()))
+        rec["values"] = []
+        rec["native_replay"] = {"reproduced": True, "output": o["detail"][-3000:]}
+        suffix = ""   # the enumeration harness prints the failing case itself and ran on the real code
+    elif o["engine"].startswith("kani"):
         rec["harness"] = o["harness"]
         rec["harness_files"] = o["files"]
         rec["inject"] = list(o.get("inject", ()))
@@ -298,7 +321,7 @@ def write_replay(pid, o):
 def replay(path):
     rec = json.load(open(path))
     print(f"replay of {rec['obligation']} (property {rec['property']})")
-    if rec["engine"].startswith("kani") and rec.get("values") is not None:
+    if (rec["engine"].startswith("kani") or rec["engine"] == "native_bounded") and rec.get("values") is not None:
         repro, out = kani_runner.native_replay([os.path.join(VERIF, f) for f in rec["harness_files"]],
                                                rec["harness"], rec["values"], inject=rec.get("inject", ()))
         print(out[-3000:])
